@@ -36,11 +36,12 @@ def offTokens : Off → List Token
   | .hhmm sp neg h m => spT sp ++ [[sgn neg], dtok [h / 10, h, m / 10, m]]
   | .hhcmm sp neg h m => spT sp ++ [[sgn neg], dtok [h / 10, h], [':'], dtok [m / 10, m]]
 
-/-- `tz.UTC`, or `tzlocal()` when the process zone is itself called UTC (the order `_build_tzaware` tests in).
-    NOTE: `.localZone` carries no offset — a zone CALLED `UTC` need not be at offset zero (`TZ=UTC+3`), so this row
-    does not say "offset zero" (known finding D-C02-local-zone-named-utc; `C02.offDescr_carries_offset`). -/
+/-- `tz.UTC`, or the process-zone row when the process zone is itself called UTC (the order `_build_tzaware` tests in).
+    The row carries the parsed offset (`some 0`), so `localFinal` sends it to `tz.UTC` unless `tzlocal()` is at offset zero
+    for that wall time: either way the result is at offset zero (`C02.offDescr_carries_offset`; D-C02-local-zone-named-utc
+    is repaired). -/
 def utcOrLocal (tznames : List Token) : TzDescr :=
-  if tznames.contains ['U', 'T', 'C'] then .localZone ['U', 'T', 'C'] else .utc
+  if tznames.contains ['U', 'T', 'C'] then .localZone ['U', 'T', 'C'] (some 0) else .utc
 
 /-- the zone a suffix must give -/
 def offDescr (tznames : List Token) (off : Off) : TzDescr :=
